@@ -58,6 +58,11 @@ def unsetCookie (r : Resp κ) (name line : String) : Resp κ := { r with cookies
 def emitAll (c : Cfg Name κ) (r : Resp κ) : List (κ × String) :=
   r.headers ++ r.extra ++ r.cookies.map (fun p => (c.cookie, p.2))
 
+/-- the `Response.headers` property: `return self._headers.copy()` - the dict items in dict order.  The COPY is what makes the
+    value a snapshot; in this (pure) model every value is one: an operation on a returned mapping is no operation of the
+    response history, and a response operation after the read cannot change the mapping that was returned. -/
+def headersCopy (r : Resp κ) : List (κ × String) := r.headers
+
 /-- typed header properties (`_header_property`): write / delete the dict entry of a fixed lower-case name directly -/
 def propSet (r : Resp κ) (k : κ) (v : String) : Resp κ := { r with headers := setKey r.headers k v }
 def propDel (r : Resp κ) (k : κ) : Resp κ := { r with headers := delKey r.headers k }
